@@ -2,6 +2,7 @@ package stateful
 
 import (
 	"sort"
+	"sync"
 	"time"
 
 	"github.com/influxdata/kapacitor/tick/ast"
@@ -85,3 +86,97 @@ func VerifC05FunctionCall(v *vrt.T) {
 
 // functions whose bodies are outside the engine's model (listed in the claim)
 var verifC05SkipFuncs = []string{}
+
+// verifC05ArgOfType is a literal of the given lambda type ("1s" parses as a duration,
+// so the string functions and duration() all run their full bodies).
+func verifC05ArgOfType(t ast.ValueType) (ast.Node, bool) {
+	switch t {
+	case ast.TInt:
+		return &ast.NumberNode{IsInt: true, Int64: 2, Base: 10}, true
+	case ast.TFloat:
+		return &ast.NumberNode{IsFloat: true, Float64: 1.5}, true
+	case ast.TString:
+		return &ast.StringNode{Literal: "1s"}, true
+	case ast.TBool:
+		return &ast.BoolNode{Bool: true}, true
+	case ast.TDuration:
+		return &ast.DurationNode{Dur: time.Second}, true
+	}
+	return nil, false
+}
+
+// VerifC05ConcurrentEval: every node of every task evaluates its lambda on its own
+// goroutine, and the stateless built-in functions are process-wide singletons shared by
+// all compiled expressions. Two separately compiled expressions calling the same built-in
+// (each signature with int/float/string/bool/duration arguments) are evaluated twice each
+// on two goroutines: no map reachable from both is accessed concurrently with a write (Go
+// aborts the whole process on that: "fatal error: concurrent map writes"), both return
+// the same result, and nothing panics.
+func VerifC05ConcurrentEval(v *vrt.T) {
+	fs := NewFunctions()
+	names := make([]string, 0, len(fs))
+	for n := range fs {
+		names = append(names, n)
+	}
+	sort.Strings(names)
+	name := names[v.Choose("function", len(names))]
+	// the signatures in a fixed order
+	var doms []Domain
+	for d := range fs[name].Signature() {
+		doms = append(doms, d)
+	}
+	less := func(a, b Domain) bool {
+		for k := range a {
+			if a[k] != b[k] {
+				return a[k] < b[k]
+			}
+		}
+		return false
+	}
+	for i := 1; i < len(doms); i++ {
+		for j := i; j > 0 && less(doms[j], doms[j-1]); j-- {
+			doms[j], doms[j-1] = doms[j-1], doms[j]
+		}
+	}
+	if len(doms) == 0 {
+		return
+	}
+	dom := doms[v.Choose("signature", len(doms))]
+	var args []ast.Node
+	for _, t := range dom {
+		if t == ast.InvalidType {
+			break
+		}
+		a, ok := verifC05ArgOfType(t)
+		if !ok {
+			return // regex, time, missing, list arguments: outside this harness
+		}
+		args = append(args, a)
+	}
+	var exprs [2]Expression
+	for i := range exprs {
+		e, err := NewExpression(&ast.FunctionNode{Type: ast.GlobalFunc, Func: name, Args: args})
+		if err != nil {
+			return
+		}
+		exprs[i] = e
+	}
+	var errs [2]bool
+	var wg sync.WaitGroup
+	for i := range exprs {
+		i := i
+		wg.Add(1)
+		go func() {
+			defer wg.Done()
+			for r := 0; r < 2; r++ {
+				_, err := exprs[i].Eval(NewScope())
+				errs[i] = errs[i] || err != nil
+			}
+		}()
+	}
+	wg.Wait()
+	v.Assert(v.Goroutines() == 0, "both evaluations end")
+	v.Assert(errs[0] == errs[1], "both goroutines get the same outcome")
+	v.Observe("err", errs[0])
+	v.Reach("end")
+}
